@@ -145,12 +145,19 @@ def role(vt):
 
 
 def helpers_alive(s):
+    """Library threads still alive: (role, already signalled to stop?).  A ProcessWatcher that watches a child
+    which is not the most recently spawned one is labelled 'superseded ProcessWatcher'."""
     base = wd.mod("watchdog.utils").BaseThread
+    tab = s.env.get("proctable")
+    last = tab.children[-1].pid if tab is not None and tab.children else None
     out = []
     for t in s.live_threads():
         if isinstance(t.obj, base):
             ev = getattr(t.obj, "_stopped_event", None)
-            out.append((role(t), bool(getattr(ev, "_flag", False))))
+            r = role(t)
+            if r == "ProcessWatcher" and getattr(getattr(t.obj, "popen_obj", None), "pid", last) != last:
+                r = "superseded ProcessWatcher"
+            out.append((r, bool(getattr(ev, "_flag", False))))
     return sorted(out)
 
 
